@@ -546,6 +546,12 @@ func (env *Env) call(x *ECall) Val {
 			}
 		}
 		return n.c(x.Args[0])
+	case "ncalls":
+		// number of calls of the named function executed so far by the function under contract itself
+		if len(x.Args) != 1 {
+			cfail("ncalls() takes a function key")
+		}
+		return mathInt(vc.heapGet(env.st, "N_"+sanitize(x.Args[0].String()), "Int"))
 	case "iter":
 		// the value of the expression at the head of the innermost enclosing loop (start of the current iteration)
 		if env.st.iter == nil {
